@@ -122,6 +122,9 @@ func init() {
 			}
 			return
 		}
+		if c.A["expect"] == "any" {
+			return
+		}
 		if c.A["expect"] == "fail" {
 			if err == nil {
 				fs = append(fs, Failure{Kind: "oracle", Key: "seal-fail-open", Desc: "sealing succeeded although " + c.A["why"]})
@@ -167,6 +170,25 @@ func init() {
 		_, pt, e := saltpack.Open(saltpack.CheckKnownMajorVersion, out, stranger)
 		if errClass(e) != "ErrNoDecryptionKey" || pt != nil {
 			fs = append(fs, Failure{Kind: "oracle", Key: "open-stranger", Desc: fmt.Sprintf("keyring without a recipient key: err %v, %d bytes", e, len(pt))})
+		}
+		// C08: the independent strict receiver written from the specs, as every recipient
+		for i := range pks {
+			if c.A["spec"] != "1" {
+				break
+			}
+			ro, re := refOpenEnc(out, rsks[i])
+			if re != nil {
+				fs = append(fs, Failure{Kind: "oracle", Key: "spec-nonconformant-encryption-output", Desc: fmt.Sprintf("the reference receiver (recipient %d) rejects the library's output: %v", i, re)})
+				break
+			}
+			wantSender := senderPk
+			if wantSender == nil {
+				wantSender = ro.ephPk
+			}
+			if !bytes.Equal(ro.plaintext, msg) || !bytes.Equal(ro.senderPk, wantSender) || ro.anon != (senderPk == nil) || ro.rcptHidden != hide[i] || ro.major != v.Major || ro.minor != v.Minor {
+				fs = append(fs, Failure{Kind: "oracle", Key: "spec-decoder-disagrees-encryption", Desc: fmt.Sprintf("the reference receiver (recipient %d) recovers a different plaintext/sender/visibility/version", i)})
+				break
+			}
 		}
 		// C19: identities on the wire
 		if senderPk != nil {
@@ -222,6 +244,24 @@ func init() {
 		clean := o.hdrErr == nil && o.end == io.EOF
 		if clean != (e == nil) || (e == nil && !bytes.Equal(pt, o.released)) || (e != nil && pt != nil) {
 			fs = append(fs, Failure{Kind: "oracle", Key: "open-forms-disagree", Desc: fmt.Sprintf("stream: %.120s ; Open: %d bytes, %v", got, len(pt), e)})
+		}
+		if w, ok := c.A["want"]; ok {
+			// a message a spec-following sender produced: must be accepted with exactly this outcome
+			bad := o.hdrErr != nil || o.end != io.EOF || !bytes.Equal(o.released, unhx(w))
+			if !bad {
+				if c.A["want_sender"] == "anon" {
+					bad = !o.mki.SenderIsAnon
+				} else {
+					bad = o.mki.SenderIsAnon || hx(o.mki.SenderKey.ToKID()) != c.A["want_sender"]
+				}
+				bad = bad || b01(o.mki.ReceiverIsAnon) != c.A["want_hidden"]
+			}
+			if bad {
+				fs = append(fs, Failure{Kind: "oracle", Key: "open-rejects-spec-message", Desc: fmt.Sprintf("a message produced by the reference sender (%s) was not accepted as expected: %.200s", c.A["knobs"], got)})
+			}
+		}
+		if rk, ok := c.A["must_reject"]; ok && o.hdrErr == nil && (len(o.released) > 0 || o.end == io.EOF) {
+			fs = append(fs, Failure{Kind: "oracle", Key: rk, Desc: fmt.Sprintf("%s: accepted: %.160s", c.A["why"], got)})
 		}
 		if t, ok := c.A["truth"]; ok && o.hdrErr == nil && !o.mki.SenderIsAnon && bytes.Equal(o.mki.SenderKey.ToKID(), unhx(c.A["honest"])) {
 			whole, pref := isPrefixOfAny(o.released, unblist(t))
